@@ -15,7 +15,8 @@ IsUndef(e) == e.op = "undef"
 NaNE == Q(NaN)
 
 \* exact square root of a rational whose numerator and denominator are perfect squares, else <<>>
-IntSqrt(n) == IF \E r \in 0..n : r * r = n THEN CHOOSE r \in 0..n : r * r = n ELSE -1
+SqrtBound(n) == IF n < 317 THEN n ELSE 317          \* 317^2 > 100000, the largest radicand simplified; keeps r * r inside 32 bits
+IntSqrt(n) == IF \E r \in 0..SqrtBound(n) : r * r = n THEN CHOOSE r \in 0..SqrtBound(n) : r * r = n ELSE -1
 HasExactSqrt(x) == IsFinite(x) /\ x[1] >= 0 /\ x[1] <= 100000 /\ x[2] <= 100000 /\ IntSqrt(x[1]) >= 0 /\ IntSqrt(x[2]) >= 0
 
 Un(op, a) == IF IsUndef(a) THEN Undef ELSE [op |-> op, a |-> a]
